@@ -294,7 +294,9 @@ def _history(case, ctx, sim, cluster, session, policy, addrs, script, stt, calls
     # ---- oracle 2: a failed selection on any pool is reported
     if kind == "ok" and failures:
         sw = [r for r in cb_order if r["switch"]]
-        last_ok = bool(sw) and not sw[-1]["cb"]
+        # the pool that finishes last is the one whose USE the fake servers answered last (ground truth, not the
+        # driver's own bookkeeping)
+        last_ok = bool(delivered) and delivered[-1][1] in ("ok", "die")
         real = [f for f in failures if f[1] != "died"]
         if real and last_ok:
             feat = ["failed-pool-not-last"]
